@@ -304,7 +304,7 @@ theorem rawCopy_spec (s s' : St) (dst src : Win) (h : Dense.rawCopy s dst src = 
 
 /-- unfolding of `Clone()` on an unmasked tensor -/
 theorem clone_unfold (st st' : St) (t r : Dense) (hnm : t.mask = none) (h : t.clone st = .ok (st', r)) :
-    r = { ap := { t.ap with fin := true }, old := t.old, tw := none,
+    r = { ap := { t.ap with fin := true }, old := t.old, tw := t.tw,
           win := ⟨st.heap.size, 0, t.win.len, t.win.len⟩, dt := t.dt, eng := t.eng } ∧
     Dense.rawCopy { st with heap := st.heap.push (Array.replicate t.win.len Val.zero) }
       ⟨st.heap.size, 0, t.win.len, t.win.len⟩ t.win = .ok st' := by
